@@ -690,6 +690,25 @@ func (s *session) sendOp(a hx.Args, b []byte, own uint64, hasOwn bool) string {
 	if hasOwn {
 		nonce = own
 	}
+	// split=<n>: the message reaches the node in pieces (two cuts derived from n; each piece is written once the
+	// node has consumed the one before and waits for more), as TCP may deliver it. The bytes are the same: the model
+	// ignores the key.
+	if sp, ok := a.Uint("split"); ok && len(b) > 2 {
+		c1 := 1 + int(sp%uint64(len(b)-1))
+		c2 := c1 + int((sp/7919)%uint64(len(b)-c1))
+		for _, piece := range [][]byte{b[:c1], b[c1:c2]} {
+			if len(piece) == 0 {
+				continue
+			}
+			s.queued += int64(len(piece))
+			s.handled = time.Time{}
+			s.writeQ <- append([]byte{}, piece...)
+			if s.waitBarrier(waitOf(a, defaultWait), ^uint64(0)) == "closed" {
+				break
+			}
+		}
+		b = b[c2:]
+	}
 	out := append(append([]byte{}, b...), frame("ping", le64(nonce), nil)...)
 	s.queued += int64(len(out))
 	s.handled = time.Time{}
